@@ -58,6 +58,11 @@ def check(cfg, lines):
             v("C20", "no progress of simulated time within the step budget (zero-time livelock)")
         elif crash:
             v("C20", "unhandled exception %s" % crash)
+            msg = " ".join(l for l in lines if l.startswith("CRASH "))
+            if "edge index" in msg or "edge_selection must be in range" in msg:
+                # every selection policy of a valid configuration stays inside its edge list (ROUND_ROBIN cycles over
+                # exactly the node's edges on that side; constants and streams were generated in range)
+                v("C15", "a selection policy of a valid configuration produced an index outside the node's edge list: %s" % msg[:200])
     elif cfg.get("expect_reject"):
         kind = cfg["expect_reject"]
         fn = cfg.get("fault_node")
@@ -294,6 +299,11 @@ def check(cfg, lines):
             v("C18", "sink %d reports total cycle time %s, sum over received items is %s" % (n, nd["cycle"], cycle[n]))
         # ---- C17: totals non-negative and partition T
         ts = nums(nd["tstate"])
+        if kind in ("machine", "source", "splitter", "combiner") and ts and not crash:
+            # the set-up period, and nothing else, is charged to the set-up state
+            want = min(float(ncfg[n]["setup"]), float(T))
+            if abs(ts[0] - want) > 1e-6:
+                v("C17", "%s %d: %s charged to the set-up state, its set-up period within the run lasted %s" % (kind, n, ts[0], want))
         if any(x < -1e-9 for x in ts):
             v("C17", "node %d has a negative state time %s" % (n, ts))
         if kind == "machine":
